@@ -35,3 +35,43 @@ Theorem C01_and_shares_delay : forall rt mt f s ops,
   sbind (do_wait s) (fun _ s1 => sbind (exec_ops rt mt f false s1 true ops) (fun _ s2 => ROk SigNormal s2)).
 Proof. exact set_requests_one_delay. Qed.
 Print Assumptions C01_and_shares_delay.
+
+(* ---- forward simulation for straight-line programs (Lang/Simulation.v) ----
+   For every script made of register settings, unit switches, assignments, print / println, wait and
+   set / on / off of all lights or of lists of lights, groups and locations -- every value an ordinary
+   rvalue or a call-free numeric expression, of any size -- and every population: if the reference
+   semantics runs the source to its end with events evs, then the code the compiler model emits,
+   loaded and run on the machine model from the initial state, finishes with exactly evs.
+   (Conditionals, loops, routines, zones and matrix blocks are not covered by this theorem: for
+   them the agreement of the three models with each other and with the implementation is
+   established per run by the correspondence and oracle comparisons.) *)
+From Bardolph Require Import Lang.Instr Lang.Loader Lang.Machine Lang.CodeGen Lang.ExprCompile Lang.Simulation.
+Import ListNotations.
+Open Scope string_scope.
+Open Scope list_scope.
+
+Theorem C01_straightline_program_runs_as_its_source_says :
+  forall (p : script) (w : world) (fuel : nat) (evs : list event),
+    forallb (simple_atom (snd (collect p [] []))) p = true -> (seq_size p <= fuel)%nat ->
+    run_src fuel p w = SFinished evs ->
+    exists k, run_program k (compile p) w = Finished evs.
+Proof. exact straightline_program_runs_as_its_source_says. Qed.
+Print Assumptions C01_straightline_program_runs_as_its_source_says.
+
+(* the same, statement by statement, for code placed anywhere in an image and any pair of corresponding states *)
+Theorem C01_script_simulation :
+  forall rt mt p, forallb (simple_atom mt) p = true ->
+  forall im ss s ss' fuel, sim ss s -> code_at im (m_pc s) (flat_map (c_stmt rt mt false None) p) -> (seq_size p <= fuel)%nat ->
+  exec_seq rt mt fuel false ss p = ROk SigNormal ss' -> simulates im ss s ss' (flat_map (c_stmt rt mt false None) p).
+Proof. exact script_simulation. Qed.
+Print Assumptions C01_script_simulation.
+
+(* the hypotheses are satisfiable: a script with every covered statement form *)
+Example C01_simulation_nonvacuous :
+  let p := [SUnits UM_RAW; SReg R_HUE (RLit (LInt 5)); SAssign "x" (RExpr (EBin BAdd (ELit (LInt 1)) (EBin BMul (EReg R_HUE) (ELit (LInt 2)))));
+            SReg R_DURATION (RVar "x"); SSet (OpList [Target TLight (NStr "a"); Target TGroup (NStr "g")]); SOn OpAll; SWait;
+            SPrintln (Some (RVar "x")); SOff (OpList [Target TLocation (NStr "l")])] in
+  let w := [mkLight "a" "g" "l" KPlain [0; 0; 0; 0]; mkLight "b" "g" "l" KPlain [0; 0; 0; 0]] in
+  forallb (simple_atom (snd (collect p [] []))) p = true /\ (seq_size p <= 200)%nat /\
+  exists evs, run_src 200 p w = SFinished evs /\ (3 <= length evs)%nat.
+Proof. split; [vm_compute; reflexivity|]. split; [vm_compute; repeat constructor|]. eexists. split; [vm_compute; reflexivity|]. cbn. repeat constructor. Qed.
